@@ -462,6 +462,42 @@ func ruleR40(c *Ctx) {
 		}
 		c.Check(double == "", f, f.Decl, "processor forwards at most one response", "no path of the processor sends two responses for one request", ifEmpty(double, fmt.Sprintf("%d response sends on exclusive paths", len(sp))))
 	}
+	// (a2) a task request carries the context of the instance: the builder's Context(...) argument is
+	// the context parameter of the activity's loop (a request that races the cancellation then
+	// carries an already-cancelled context), never a fresh background context
+	nCtx := 0
+	for _, f := range p.Funcs {
+		if f.Pkg.PkgPath != pathBpmn {
+			continue
+		}
+		in := info(f)
+		inspectNoLit(f.Body, func(m ast.Node) bool {
+			call, ok := m.(*ast.CallExpr)
+			if !ok || len(call.Args) != 1 {
+				return true
+			}
+			fn := callee(in, call)
+			if fn == nil || fn.Name() != "Context" || recvNamed(fn) == nil || recvNamed(fn).Obj().Name() != "taskTraceBuilder" {
+				return true
+			}
+			nCtx++
+			okArg := false
+			if id, isId := unparen(call.Args[0]).(*ast.Ident); isId {
+				if v, isVar := objOf(in, id).(*types.Var); isVar && isNamed(v.Type(), "context", "Context") {
+					for fi := f; fi != nil; fi = fi.Parent {
+						if isParam(fi, v) {
+							okArg = true
+						}
+					}
+				}
+			}
+			c.Check(okArg, f, call, "task request context", "the context attached to a task request is the context parameter of the activity goroutine that issues it (so a request racing the cancellation is already cancelled), not a fresh or stored context", "argument: "+exprStringShort(call.Args[0]))
+			return true
+		})
+	}
+	if nCtx == 0 {
+		c.Missing("task request context", "no taskTraceBuilder.Context(...) call found: task requests no longer carry a context")
+	}
 	// (b) error-mode switch in the token loop
 	for _, root := range tokenRoots(p) {
 		in := info(root)
